@@ -47,13 +47,29 @@ def _frame(vc, out, sl, cls, conj_names):
     S.sharing_clauses(vc, list(pout.values()), list(pin.values()))
 
 
-for _kind in PARAM_KINDS:
-    def _h(vc, _kind=_kind):
+# REAL operands: conj(x) = x is assumed for the real leaves only (no algebra of conj is axiomatised), hence no "unary" kind
+for _kind, _dt in [(k, d) for k in PARAM_KINDS for d in ("COMPLEX", "REAL") if not (d == "REAL" and k == "unary")]:
+    def _h(vc, _kind=_kind, _dt=_dt):
         K, C = vc.int("K", lo=1), vc.int("C", lo=2)
         v, scope = scope1(vc)
-        sl = vc.new(f"{SL}:EmbeddingLayer", scope, K, num_states=C, weight=tensor_param(vc, (K, C), _kind, "ExpParameter"))
+        sl = vc.new(f"{SL}:EmbeddingLayer", scope, K, num_states=C, weight=tensor_param(vc, (K, C), _kind, "SquareParameter", dtype=_dt))
         _frame(vc, single_layer(vc, vc.call(f"{SO}:conjugate_embedding_layer", sl)), sl, "EmbeddingLayer", {"weight"})
-    obligation(f"C07.rule.conjugate_embedding_layer.{_kind}", "C07", [f"{SO}:conjugate_embedding_layer"])(_h)
+    obligation(f"C07.rule.conjugate_embedding_layer.{_kind}.{_dt.lower()}", "C07", [f"{SO}:conjugate_embedding_layer"])(_h)
+
+    def _h(vc, _kind=_kind, _dt=_dt):
+        K, d = vc.int("K", lo=1), vc.int("d", lo=0)
+        v, scope = scope1(vc)
+        sl = vc.new(f"{SL}:PolynomialLayer", scope, K, degree=d, coeff=tensor_param(vc, (K, d + 1), _kind, "SquareParameter", dtype=_dt))
+        _frame(vc, single_layer(vc, vc.call(f"{SO}:conjugate_polynomial_layer", sl)), sl, "PolynomialLayer", {"coeff"})
+    obligation(f"C07.rule.conjugate_polynomial_layer.{_kind}.{_dt.lower()}", "C07", [f"{SO}:conjugate_polynomial_layer"])(_h)
+
+    def _h(vc, _kind=_kind, _dt=_dt):
+        Ki, Ko, H = vc.int("Ki", lo=1), vc.int("Ko", lo=1), vc.int("H", lo=1)
+        sl = vc.new(f"{SL}:SumLayer", Ki, Ko, arity=H, weight=tensor_param(vc, (Ko, H * Ki), _kind, "SquareParameter", dtype=_dt))
+        _frame(vc, single_layer(vc, vc.call(f"{SO}:conjugate_sum_layer", sl)), sl, "SumLayer", {"weight"})
+    obligation(f"C07.rule.conjugate_sum_layer.{_kind}.{_dt.lower()}", "C07", [f"{SO}:conjugate_sum_layer"])(_h)
+
+for _kind in PARAM_KINDS:
 
     for _p in ("logits", "probs"):
         def _h(vc, _kind=_kind, _p=_p):
@@ -72,16 +88,3 @@ for _kind in PARAM_KINDS:
                         stddev=tensor_param(vc, (K,), "unary", "SoftplusParameter"), log_partition=lp)
             _frame(vc, single_layer(vc, vc.call(f"{SO}:conjugate_gaussian_layer", sl)), sl, "GaussianLayer", set())
         obligation(f"C07.rule.conjugate_gaussian_layer.lp{int(_lp)}.{_kind}", "C07", [f"{SO}:conjugate_gaussian_layer"])(_h)
-
-    def _h(vc, _kind=_kind):
-        K, d = vc.int("K", lo=1), vc.int("d", lo=0)
-        v, scope = scope1(vc)
-        sl = vc.new(f"{SL}:PolynomialLayer", scope, K, degree=d, coeff=tensor_param(vc, (K, d + 1), _kind, "ExpParameter"))
-        _frame(vc, single_layer(vc, vc.call(f"{SO}:conjugate_polynomial_layer", sl)), sl, "PolynomialLayer", {"coeff"})
-    obligation(f"C07.rule.conjugate_polynomial_layer.{_kind}", "C07", [f"{SO}:conjugate_polynomial_layer"])(_h)
-
-    def _h(vc, _kind=_kind):
-        Ki, Ko, H = vc.int("Ki", lo=1), vc.int("Ko", lo=1), vc.int("H", lo=1)
-        sl = vc.new(f"{SL}:SumLayer", Ki, Ko, arity=H, weight=tensor_param(vc, (Ko, H * Ki), _kind, "SoftmaxParameter"))
-        _frame(vc, single_layer(vc, vc.call(f"{SO}:conjugate_sum_layer", sl)), sl, "SumLayer", {"weight"})
-    obligation(f"C07.rule.conjugate_sum_layer.{_kind}", "C07", [f"{SO}:conjugate_sum_layer"])(_h)
